@@ -531,6 +531,147 @@ Fixpoint reader_trace (cfg : ccfg) (counts : list N) (s : cst) (r : bytes) : lis
   end.
 
 (* ------------------------------------------------------------------ *)
+(* CTE: accumulation of ONE string-like value (/repo/cte/parser.go)     *)
+(* ------------------------------------------------------------------ *)
+
+(* The ANTLR front end (lexer, token stream, parse tree) is not modelled.  What is
+   modelled is what the listener itself does with the body of a string-like value
+   (string, resource ID, remote reference, custom text, media text: the same
+   grammar  (stringContents | stringEscape)* STRING_END  and the same listener
+   methods), namely how cteListener.arrayData grows:
+
+     ExitStringContents      arrayData = append(arrayData, text...)   one character
+     ExitEscapeChar,
+     ExitCodepointContents   appendCodepoint: bytes.NewBuffer(arrayData).WriteRune(r);
+                             arrayData = buff.Bytes()
+     CONTINUATION            nothing is appended
+
+   [c_len] / [c_cap] = len / cap of arrayData, [c_al] the bytes allocated for it
+   (append: runtime.nextslicecap as [go_grow]; bytes.Buffer.grow: the 64-byte
+   first buffer, then growSlice = max(len+n, 2*cap); both WITHOUT the allocator's
+   size-class rounding), [c_work] the bytes copied or written.
+   Verbatim sequences (\.) are outside this model: [cte_body] answers None on them,
+   as it does on every body the lexer / listener refuse. *)
+
+(* n copies of a list; lets generated case files write long bodies compactly *)
+Definition lrep (u : list N) (n : N) : list N := N.iter n (app u) [].
+
+(* bytes of the UTF-8 form of a code point (token text, utf8.AppendRune: U+FFFD for
+   surrogates and values beyond U+10FFFF, also for the negative runes that values
+   of 2^31 and more turn into) *)
+Definition rune_len (c : N) : N :=
+  if c <? 128 then 1
+  else if c <? 2048 then 2
+  else if ((55296 <=? c) && (c <=? 57343)) || (1114111 <? c) then 3
+  else if c <? 65536 then 3
+  else 4.
+
+Record cacc := { c_len : N; c_cap : N; c_al : N; c_work : N }.
+(* a fresh listener: arrayData is nil *)
+Definition cacc0 : cacc := {| c_len := 0; c_cap := 0; c_al := 0; c_work := 0 |}.
+
+(* append(arrayData, text...), k = len(text) *)
+Definition acc_text (k : N) (s : cacc) : cacc :=
+  let need := c_len s + k in
+  if c_cap s <? need then
+    let c := go_grow (c_cap s) need in
+    {| c_len := need; c_cap := c; c_al := c_al s + c; c_work := c_work s + need |}
+  else {| c_len := need; c_cap := c_cap s; c_al := c_al s; c_work := c_work s + k |}.
+
+(* appendCodepoint, k = UTF-8 length of the rune.  WriteRune: one byte goes through
+   WriteByte (grow(1)), anything else asks for utf8.UTFMax = 4 spare bytes. *)
+Definition acc_rune (k : N) (s : cacc) : cacc :=
+  let n := if k =? 1 then 1 else 4 in
+  if c_len s + n <=? c_cap s then                       (* tryGrowByReslice *)
+    {| c_len := c_len s + k; c_cap := c_cap s; c_al := c_al s; c_work := c_work s + k |}
+  else if c_cap s =? 0 then                             (* buf == nil && n <= smallBufferSize: make([]byte, n, 64) *)
+    {| c_len := c_len s + k; c_cap := 64; c_al := c_al s + 64; c_work := c_work s + k |}
+  else                                                  (* growSlice: one new buffer of max(len+n, 2*cap), copy *)
+    let c := N.max (c_len s + n) (2 * c_cap s) in
+    {| c_len := c_len s + k; c_cap := c; c_al := c_al s + c; c_work := c_work s + c_len s + k |}.
+
+(* ExitEscapeChar (the lexer's ESCAPE_CHAR lets exactly these through) *)
+Definition cte_escape (c : N) : option N :=
+  if (c =? 114) || (c =? 82) then Some 13
+  else if (c =? 110) || (c =? 78) then Some 10
+  else if (c =? 116) || (c =? 84) then Some 9
+  else if c =? 34 then Some 34
+  else if c =? 42 then Some 42
+  else if c =? 47 then Some 47
+  else if c =? 92 then Some 92
+  else if c =? 45 then Some 173
+  else if c =? 95 then Some 160
+  else None.
+
+Definition cte_ws (c : N) : bool := (c =? 32) || (c =? 9) || (c =? 10) || (c =? 13).
+(* STRING_CONTENTS = CHAR_QUOTED_STRING.  Exact on ASCII; beyond ASCII only these ranges
+   are modelled: U+00A0-00FF, U+0391-03A1, U+4E00-9FA5, U+1F600-1F64F *)
+Definition cte_char_ok (c : N) : bool :=
+  (c =? 9) || (c =? 10) || (c =? 13) || ((32 <=? c) && (c <=? 126)) ||
+  ((160 <=? c) && (c <=? 255)) || ((913 <=? c) && (c <=? 929)) ||
+  ((19968 <=? c) && (c <=? 40869)) || ((128512 <=? c) && (c <=? 128591)).
+Definition cte_hexd (c : N) : bool :=
+  ((48 <=? c) && (c <=? 57)) || ((65 <=? c) && (c <=? 70)) || ((97 <=? c) && (c <=? 102)).
+Definition cte_hexv (c : N) : N := if c <=? 57 then c - 48 else if c <=? 70 then c - 55 else c - 87.
+
+(* CODEPOINT: HEX+ ']' ; value as strconv.ParseUint(text, 16, 32) (inner None: out of range, the listener panics) *)
+Fixpoint cte_hex (inp : list N) (some : bool) (v : option N) : option (option N * list N) :=
+  match inp with
+  | c :: r =>
+    if cte_hexd c then
+      cte_hex r true (match v with
+                      | Some x => let y := 16 * x + cte_hexv c in if y <? 4294967296 then Some y else None
+                      | None => None
+                      end)
+    else if (c =? 93) && some then Some (v, r) else None
+  | [] => None
+  end.
+
+Fixpoint cte_skip_ws (inp : list N) : list N :=
+  match inp with
+  | c :: r => if cte_ws c then cte_skip_ws r else inp
+  | [] => []
+  end.
+
+(* The body: the code points after the opening token up to the end of a document
+   whose top-level value this is (after the closing quote only white space). *)
+Fixpoint cte_body (fuel : nat) (inp : list N) (s : cacc) : option cacc :=
+  match fuel with
+  | O => None
+  | S f =>
+    match inp with
+    | [] => None
+    | c :: r =>
+      if c =? 34 then (if forallb cte_ws r then Some s else None)
+      else if c =? 92 then
+        match r with
+        | [] => None
+        | e :: r2 =>
+          if e =? 91 then
+            match cte_hex r2 false (Some 0) with
+            | Some (Some v, r3) => cte_body f r3 (acc_rune (rune_len v) s)
+            | _ => None
+            end
+          else if (e =? 10) || (e =? 13) then cte_body f (cte_skip_ws r2) s
+          else match cte_escape e with
+               | Some v => cte_body f r2 (acc_rune (rune_len v) s)
+               | None => None
+               end
+        end
+      else if cte_char_ok c then cte_body f r (acc_text (rune_len c) s)
+      else None
+    end
+  end.
+
+Definition cte_string (body : list N) : option cacc := cte_body (S (length body)) body cacc0.
+
+(* slack of the comparison with runtime.MemStats.TotalAlloc for a CTE decode: what the
+   ANTLR front end allocates (a token and a parse-tree node per character; measured
+   0.3-0.7 KiB per document byte once the prediction tables are warm) *)
+Definition cte_slack_per_byte : N := 1024.
+Definition cte_slack_const : N := 1048576.
+
+(* ------------------------------------------------------------------ *)
 (* Correspondence cases                                                 *)
 (* ------------------------------------------------------------------ *)
 
@@ -553,7 +694,12 @@ Inductive cost_case :=
    document does this any more; a death the model cannot explain is a mismatch. *)
 | CostKilled (cfg : ccfg) (doc : bytes) (cap base req : N)
 (* cbe.Reader alone: ReadBytes(counts...) over [input]: len(buffer) after each call (up to the first panic) *)
-| ReaderRun (counts : list N) (input : bytes) (bufs : list N).
+| ReaderRun (counts : list N) (input : bytes) (bufs : list N)
+(* CTE: a document of [doclen] bytes whose top-level value is one string-like value with the
+   body [body] (code points after the opening token, to the end of the document), decoded with a
+   validator under MaxArraySizeBytes = max_array: error?, events delivered, bytes of the value
+   handed to the receiver, TotalAlloc delta around the call *)
+| CteStrRun (max_array doclen : N) (body : list N) (err : bool) (onev payload measured : N).
 
 Definition nlist_eqb : list N -> list N -> bool := list_eqb N.eqb.
 
@@ -575,4 +721,13 @@ Definition cost_case_ok (c : cost_case) : bool :=
       && ((req =? 0) || ((buf s <=? req) && (req <? buf s + 4202496)))
   | ReaderRun counts input bufs =>
       nlist_eqb (reader_trace (default_ccfg false) counts st0 input) bufs
+  | CteStrRun ma doclen body err onev payload measured =>
+      match cte_string body with
+      | None => err
+      | Some s =>
+          if (0 <? ma) && (ma <? c_len s) then err       (* refused by the validator's length limit *)
+          else negb err && (onev =? 4) && (payload =? c_len s)
+               && (c_len s <=? measured)
+               && (measured <=? c_al s + cte_slack_per_byte * doclen + cte_slack_const)
+      end
   end.
